@@ -101,7 +101,7 @@ def gen_stream(rng, c, n, ffc=False, resets=True):
             for k in range(rng.randint(1, 4)):
                 nf = mutate(rng, cur, c, inter)
                 steps.append(dict(a="frame", pix=nf, ffcAge=rng.choice([0, 1000, 5000, 9999]))); cur = nf; i += 1
-            age = rng.choice([10001, 60000])
+            age = rng.choice([10000, 10001, 60000])      # exactly 10 s after the FFC is not 'within' it
             continue
         nf = mutate(rng, cur, c, inter)
         steps.append(dict(a="frame", pix=nf, ffcAge=age if ffc else 60000))
@@ -219,6 +219,39 @@ def chain_ffc_in_recording(rng):
     return dict(cfg=c, fps=1, preview_secs=rng.choice([0, 1]), min_secs=M, max_secs=M, trig=1, steps=steps, kind="history")
 
 
+def gen_weight_memory(rng):
+    """targeted C09 pair (dynamic threshold): the streams differ only in the first frame of the connection (colder in
+    stream 1, so its background sits below the scene and the per-pixel weights grow until the FFC); after the FFC period
+    the background is re-seeded, the scene drifts up by one count and a pixel moves from the old level to drift+delta: whether
+    that counts as motion depends on whether the threshold followed the drift, which must not depend on the pre-FFC past"""
+    w, h = rng.randint(3, 5), rng.randint(3, 4)
+    e = rng.choice([0, 0, 1]) if min(w, h) >= 3 else 0
+    dl = rng.choice([5, 20, 50])
+    L = rng.choice([1000, 3000, 30000])
+    c = dict(W=w, H=h, Edge=e, T=L - 500, Delta=dl, Cnt=1, Gap=1, One=True, Warmer=rng.random() < 0.5, Dyn=True, Tmin=0, Tmax=0,
+             Preview=0)
+    inter = interior(w, h, e)
+    (ty, tx) = rng.choice(inter)
+    def fr(v, age, v2=None, target=None):
+        p1 = [[v] * w for _ in range(h)]
+        p2 = [[(v if v2 is None else v2)] * w for _ in range(h)]
+        if target is not None:
+            p1[ty][tx] = target; p2[ty][tx] = target
+        return dict(a="frame", pix=p1, pix2=p2, ffcAge=age)
+    drop, d = 8, 4
+    steps = [fr(L - drop, 60000, L)]                                   # the only difference between the streams
+    for i in range(rng.randint(55, 70)):                               # stream 1's weights grow to about 6 counts
+        steps.append(fr(L, 60000))
+    for i in range(rng.randint(1, 3)):
+        steps.append(fr(L, rng.choice([0, 2000, 9999])))              # the FFC period
+    steps.append(fr(L, rng.choice([10000, 10001, 60000])))                    # re-seed
+    steps.append(fr(L + d, 60000))                                     # a drift smaller than the stale weights
+    for k in range(2):
+        steps.append(fr(L + d, 60000, target=L + 2))                   # below a threshold that followed the drift
+        steps.append(fr(L + d, 60000, target=L + 3 + dl))              # delta above it / delta + 1 above the old level
+    return dict(cfg=c, kind="history", steps=steps)
+
+
 def gen_across(rng):
     """targeted C09 pair: identical from the first FFC-affected frame on, different scene level before it; the
     frames after the period sit at the level of stream 1's past, so a comparison across the period shows up as
@@ -249,7 +282,7 @@ def gen_across(rng):
         for i in range(nper):
             steps.append(fr(P, rng.choice([0, 2000, 9999])))
         for i in range(npost + 3):
-            st = fr(P, 60000 if i else rng.choice([10001, 60000]))
+            st = fr(P, 60000 if i else rng.choice([10000, 10001, 60000]))
             if i >= 1 and i % 2 == 1:
                 for (y, x) in rng.sample(interior(w, h, e), max(1, len(interior(w, h, e)) // 2)):
                     st["pix"][y][x] = P - d
@@ -272,14 +305,14 @@ def gen_across(rng):
         for i in range(rng.randint(1, 3)):
             steps.append(fr(L + rng.choice([0, 3]), rng.choice([0, 2000, 9999]), L2))
         for i in range(rng.choice([1, 1, 2])):
-            steps.append(fr(L, rng.choice([10001, 60000]), L2))
+            steps.append(fr(L, rng.choice([10000, 10001, 60000]), L2))
         for i in range(rng.randint(1, 3)):
             steps.append(fr(L + rng.choice([0, 3]), rng.choice([0, 2000, 9999])))
     else:
         for i in range(nper):
             steps.append(fr(L + rng.choice([0, 3]), rng.choice([0, 2000, 9999])))
     for i in range(npost):
-        steps.append(fr(L + rng.choice([0, 1, 2]), 60000 if i else rng.choice([10001, 60000])))
+        steps.append(fr(L + rng.choice([0, 1, 2]), 60000 if i else rng.choice([10000, 10001, 60000])))
     return dict(cfg=c, kind="history", steps=steps)
 
 
@@ -299,14 +332,16 @@ def build_scripts(ctx, prop, tier):
             if c["Edge"] == 0 and (dyn or rng.random() < 0.5):
                 c["Edge"] = 1; c["W"] = max(c["W"], 3); c["H"] = max(c["H"], 3)
                 c["Cnt"] = min(c["Cnt"], len(interior(c["W"], c["H"], 1)))
-            st = gen_stream(rng, c, rng.randint(8, 30), ffc=rng.random() < 0.3)
+            if not dyn and rng.random() < 0.5:
+                c["Preview"] = rng.choice([0, 0, 1])      # few background frames needed before a threshold could be recomputed
+            st = gen_stream(rng, c, rng.randint(8, 30), ffc=rng.random() < (0.3 if dyn else 0.6))
             if dyn or rng.random() < 0.5:
                 pair_border(rng, st, c); kind = "border"
             else:
                 pair_cold(rng, st, c); kind = "cold"
             scripts.append(dict(cfg=c, kind=kind, steps=st))
         elif prop == "C09" and i % 5 < 2:
-            scripts.append(gen_across(rng))
+            scripts.append(gen_across(rng) if i % 10 else gen_weight_memory(rng))
         elif prop == "C09":
             c = rand_cfg(rng, dyn=rng.random() < 0.4)
             if rng.random() < 0.6:
